@@ -19,7 +19,7 @@ from apischema.json_schema import deserialization_schema, serialization_schema
 PROP = "C16"
 RULE = (
     "every class with n<=4 (quick) / n<=5 (thorough) elements — k dataclass fields followed by n-k serialized methods, "
-    "for every split with at most 2 methods — and EVERY ordering specification: per element one of {none, order(-1), "
+    "for every split with at most 2 methods (for n<=3 also with the methods given an alias different from their name) — and EVERY ordering specification: per element one of {none, order(-1), "
     "order(1), order(999), after=x, before=x for every other element x}, restricted to well-founded specifications "
     "(acyclic anchor chains; cyclic ones are contradictory input, counted and excluded); plus class-level order([...]) "
     "for every permutation and order({...}) mapping overrides, and inheritance (spec in base / override in derived) for "
@@ -88,7 +88,7 @@ def spec_src(s) -> Optional[str]:
     return f"order({s[0]}={s[1]!r})"
 
 
-def class_src(cname: str, nf: int, nm: int, spec: Dict[str, Any], base: Optional[str] = None, class_order: Optional[str] = None, own_fields: Optional[List[str]] = None) -> str:
+def class_src(cname: str, nf: int, nm: int, spec: Dict[str, Any], base: Optional[str] = None, class_order: Optional[str] = None, own_fields: Optional[List[str]] = None, alias_methods: bool = False) -> str:
     lines = []
     if class_order:
         lines.append(f"@{class_order}")
@@ -111,7 +111,10 @@ def class_src(cname: str, nf: int, nm: int, spec: Dict[str, Any], base: Optional
             continue
         body = True
         s = spec_src(spec.get(n))
-        lines.append(f"    @serialized(order={s})" if s else "    @serialized")
+        if alias_methods:  # external name a_m<j>: order specs still designate the method by its Python name
+            lines.append(f"    @serialized({'a_' + n!r}, order={s})" if s else f"    @serialized({'a_' + n!r})")
+        else:
+            lines.append(f"    @serialized(order={s})" if s else "    @serialized")
         lines.append(f"    def {n}(self) -> int:")
         lines.append(f"        return {j + 10}")
     if not body:
@@ -148,7 +151,9 @@ def views(mod, cname: str, gql_types) -> Dict[str, List[str]]:
     out["deserialization_schema"] = list(deserialization_schema(cls).get("properties", {}))
     if gql_types is not None and cname in gql_types:
         out["graphql"] = list(gql_types[cname].fields)
-    return out
+    # aliased serialized methods (a_m0, GraphQL aM0) are reported under their Python name
+    ren = {"a_m0": "m0", "a_m1": "m1", "aM0": "m0", "aM1": "m1"}
+    return {k: [ren.get(x, x) for x in v] for k, v in out.items()}
 
 
 def check_class(mod, cname, names, spec, st, gql_types, extra_what=""):
@@ -217,6 +222,9 @@ def run_batch(batch: List[Tuple[int, int, Dict[str, Any]]], st: infra.Stats):
         cname = f"C{k}"
         src.append(class_src(cname, nf, nm, spec))
         metas.append((cname, names, spec))
+        if nm and nf + nm <= 3:
+            src.append(class_src(f"A{k}", nf, nm, spec, alias_methods=True))
+            metas.append((f"A{k}", names, spec))
     if not metas:
         return
     mod = exec_source(PRELUDE + "\n".join(src))
